@@ -791,3 +791,27 @@ M("C16", "decoder: refusal not propagated", DC, """    if ((wid = dict_add_word(
         return 0;
     }""", "ERRD.D6-api")
 M("C16", "decoder: dict2pid gets wrong id", DC, "    dict2pid_add_word(d->d2p, wid);", "    dict2pid_add_word(d->d2p, wid - 1);", "ERRD.D6-api")
+
+# ---- C08 ----------------------------------------------------------------------
+M("C08", "search: beam_factor not reset (seed C08-1)", FS, "    fsgs->beam_factor = 1.0f;\n    fsgs->beam = fsgs->beam_orig;", "    fsgs->beam = fsgs->beam_orig;", "EFFECT.G2-resets")
+M("C08", "search: function-static cache (seed C08-2)", FS, "    int32 silcipid;\n    fsg_pnode_ctxt_t ctxt;\n\n    /* Reset dynamic", "    static int32 silcipid = -1;\n    fsg_pnode_ctxt_t ctxt;\n\n    /* Reset dynamic", "CENSUS.G1-static-storage")
+M("C08", "feat: cmn type latched again", "src/feat.c", "        cmn_type = CMN_LIVE;", "        fcb->cmn = cmn_type = CMN_LIVE;", "CENSUS.G2-per-utterance-fields")
+M("C08", "acmod: senscr_frame not reset", AC, "    acmod->senscr_frame = -1;\n    acmod->n_senone_active = 0;", "    acmod->n_senone_active = 0;", "EFFECT.G2-resets")
+M("C08", "acmod: mgau frame_idx not reset", AC, "    acmod->n_senone_active = 0;\n    acmod->mgau->frame_idx = 0;", "    acmod->n_senone_active = 0;", "EFFECT.G2-resets")
+M("C08", "fe: pre-emphasis prior kept", FI, "    fe->pre_emphasis_prior = 0;\n    fe_reset_noisestats", "    fe_reset_noisestats", "EFFECT.G2-resets")
+M("C08", "fe: noise stats not reset", FI, "    fe_reset_noisestats(fe->noise_stats);\n    return 0;", "    return 0;", "EFFECT.G2-resets")
+M("C08", "decoder: hyp_str kept", DC, "    ckd_free(d->search->hyp_str);\n    d->search->hyp_str = NULL;\n    ckd_free(d->json_result);", "    ckd_free(d->json_result);", "EFFECT.G2-resets")
+M("C08", "decoder: aligner kept (seed C04-1 shape)", DC, """    /* Remove any state aligner. */
+    if (d->align) {
+        search_module_free(d->align);
+        d->align = NULL;
+    }
+
+    if ((rv = acmod_start_utt""", """    if ((rv = acmod_start_utt""", "EFFECT.G2-resets")
+M("C08", "search: finish leaves next list active", FS, """    for (gn = fsgs->pnode_active_next; gn; gn = gnode_next(gn)) {
+        pnode = (fsg_pnode_t *)gnode_ptr(gn);
+        fsg_psubtree_pnode_deactivate(pnode);
+    }
+""", "", "EFFECT.G2-resets")
+M("C08", "new global counter", "src/cmn_live.c", "void\ncmn_live_update(cmn_t *cmn)\n{", "static int n_updates;\nvoid\ncmn_live_update(cmn_t *cmn)\n{\n    ++n_updates;", "CENSUS.G1-static-storage")
+M("C08", "fe_warp read at decode time", "src/fe_sigproc.c", "int\nfe_read_frame_int16(fe_t *fe, int16 const *in, int32 len)\n{\n    int i;\n", "int\nfe_read_frame_int16(fe_t *fe, int16 const *in, int32 len)\n{\n    int i;\n    if (fe->mel_fb->warp_id == 1 && fe_warp_unwarped_to_warped(fe->mel_fb, 1.0f) < 0) return 0;\n", "CENSUS.G1-static-storage")
